@@ -67,7 +67,13 @@ func crashScen(c *Ctx) {
 		stride = (n + max - 1) / max
 	}
 	c.Res.Extra["crash_stride"] = int64(stride)
-	for i := 1; i <= n; i += stride {
+	// with a stride, start at a plan-dependent offset so that similar plans
+	// do not all skip the same steps
+	first := 1
+	if stride > 1 {
+		first = 1 + int(c.P.Seed%uint64(stride))
+	}
+	for i := first; i <= n; i += stride {
 		sub := sim.New(sim.ReplayTape(pv), sim.ReplayTape(sv))
 		crashBody(c, sub, i, "")
 		sub.Close()
@@ -156,8 +162,9 @@ func crashBody(c *Ctx, s *sim.Sim, at int, tag string) (victimSteps int) {
 	// what is judged is what the directory holds.
 	var st *world.Store
 	var proxy cache.Proxy
-	if r.Chance(1, 3) {
+	if r.Chance(1, 2) {
 		st = world.NewStore(s, cfg.Storage == "zstd")
+		st.BodyParks = []int{16, 46, 100, 4096, 70000, 1<<20 + 100, 2 << 20}
 		proxy = &world.DirectProxy{St: st}
 	}
 	n = world.StartNode(s, "g0:", dir, cfg, proxy)
@@ -231,9 +238,20 @@ func crashBody(c *Ctx, s *sim.Sim, at int, tag string) (victimSteps int) {
 			if st != nil && kind != cache.RAW && r.Chance(1, 2) {
 				// a read of a key that only the backend holds (unless another
 				// victim uploads it meanwhile): via 3 size known, via 4 unknown
+				if kind == cache.CAS {
+					// large enough for several chunks at the small chunk sizes below
+					seq++
+					b = world.Make(world.BlobID{Kind: r.Intn(4), Seed: 300 + seq, Size: []int64{9000, 70000, 20000, 4097}[r.Intn(4)]})
+					k = key(cache.CAS, b.Hash)
+					k.vals[b.Hash] = b.Data
+					op = victimOp{key: k, val: b, send: b.Data}
+				}
 				obj := b.Data
 				if st.V2 && kind == cache.CAS {
-					obj = fmtv2.Encode(b.Data, fmtv2.WriteOpts{})
+					// (any chunk size is legal in the format: small ones give
+					// small blobs several chunks, so that a kill can land
+					// exactly between two chunks of the incoming stream)
+					obj = fmtv2.Encode(b.Data, fmtv2.WriteOpts{ChunkSize: []uint32{4096, 4096, 65536, 1 << 20}[r.Intn(4)]})
 				}
 				st.Objects[world.ObjectName(kind, k.hash, st.V2)] = obj
 				op.via = 3 + r.Intn(2)
